@@ -296,7 +296,9 @@ def check_file(path, tmpdir, quick=True):
 
 THIRD_PARTY = ["own_bound_parameters", "species_twice_same_side", "species_both_sides", "noninteger_stoichiometry",
                "minimize", "inactive_second_objective", "boundary_condition_species", "shared_bound_parameter",
-               "no_stoichiometry_attribute"]
+               "no_stoichiometry_attribute",
+               # fbc:strict="false" documents may leave flux bounds out (for one reaction, before or after bounded ones)
+               "unset_bounds_second_reaction", "unset_bounds_first_reaction", "unset_upper_bound_last_reaction"]
 
 
 def make_third_party(base_path, features, out_path):
@@ -349,7 +351,42 @@ def make_third_party(base_path, features, out_path):
             fo.setCoefficient(5.0)
         elif f == "boundary_condition_species":
             m.getSpecies("M_C_e").setBoundaryCondition(True)
+        elif f.startswith("unset_"):
+            fbc.setStrict(False)
+            rs = list(m.getListOfReactions())
+            r = {"unset_bounds_second_reaction": rs[1], "unset_bounds_first_reaction": rs[0],
+                 "unset_upper_bound_last_reaction": rs[-1]}[f]
+            rf = r.getPlugin("fbc")
+            rf.unsetUpperFluxBound()
+            if "upper" not in f:
+                rf.unsetLowerFluxBound()
     libsbml.writeSBMLToFile(doc, out_path)
+
+
+def reorder_lists(path, out_path):
+    """The same document with listOfReactions, listOfSpecies and listOfParameters reversed (SBML lists are unordered
+    sets: the meaning of the document is the same)."""
+    import libsbml
+
+    doc = libsbml.readSBMLFromFile(path)
+    m = doc.getModel()
+    for lst in (m.getListOfReactions(), m.getListOfSpecies(), m.getListOfParameters()):
+        items = [lst.get(i).clone() for i in range(lst.size())]
+        while lst.size():
+            lst.remove(0)
+        for it in reversed(items):
+            lst.append(it)
+    libsbml.writeSBMLToFile(doc, out_path)
+
+
+def reaction_content(model):
+    from cobra.util.solver import linear_reaction_coefficients
+
+    obj = {r.id: float(c) for r, c in linear_reaction_coefficients(model).items() if c != 0}
+    return {r.id: {"st": {m.id: float(c) for m, c in sorted(r.metabolites.items(), key=lambda kv: kv[0].id)},
+                   "bounds": [float(r.lower_bound), float(r.upper_bound)], "objective": obj.get(r.id, 0.0),
+                   "rule": r.gene_reaction_rule and sorted(g.id for g in r.genes)}
+            for r in model.reactions}
 
 
 def check_third_party(features, tmpdir):
@@ -381,6 +418,23 @@ def check_third_party(features, tmpdir):
                 return [("reading a valid third-party document raised " + type(exc).__name__, repr(exc)[:300])], "checked"
             for kind, detail in compare_with_extraction(model, extract(out), list(cap.records)):
                 problems.append((kind, detail))
+            # the document with its (unordered) lists written in another order is the same document
+            out2 = os.path.join(tmpdir, "third_reordered.xml")
+            reorder_lists(out, out2)
+            try:
+                model2 = cio.read_sbml_model(out2)
+            except Exception as exc:
+                return problems + [("reading the document with reordered lists raised " + type(exc).__name__,
+                                    repr(exc)[:300])], "checked"
+            c1, c2 = reaction_content(model), reaction_content(model2)
+            for rid in sorted(set(c1) | set(c2)):
+                if repr(c1.get(rid)) != repr(c2.get(rid)):   # repr: a nan coefficient equals itself
+                    problems.append(("what is read depends on the order of the document's lists",
+                                     f"{rid}: {c1.get(rid)} vs {c2.get(rid)} (lists reversed)"))
+                    break
+            if model.objective_direction != model2.objective_direction:
+                problems.append(("what is read depends on the order of the document's lists",
+                                 f"direction {model.objective_direction} vs {model2.objective_direction}"))
     finally:
         root.removeHandler(cap)
     return problems, "checked"
